@@ -436,9 +436,19 @@ func idxConc(args []string) error {
 			ents = append(ents, []int{nk + 1 + i%20, rid})
 			rid++
 		}
-		tw.Emit(map[string]interface{}{"ev": "Reset", "ents": ents, "kind": kind, "ktype": typ, "gomaxprocs": procs, "ctx": "C17"})
 		var clock int64
 		var nextRid int64 = 100000
+		// hot windows: one goroutine moves a single entry back and forth between row ids under one key (UpdateEntry, what
+		// UPDATE does for a relocated row) while the others look that key up in tight loops (operations are called
+		// directly, without a watchdog goroutine per call, so that they really overlap)
+		hot := w%2 == 1
+		const hotKey = 4
+		hotRid := int(atomic.AddInt64(&nextRid, 1))
+		if hot {
+			x.idx.InsertEntry(x.keyTuple(hotKey), ridOf(hotRid), nil)
+			ents = append(ents, []int{hotKey, hotRid})
+		}
+		tw.Emit(map[string]interface{}{"ev": "Reset", "ents": ents, "kind": kind, "ktype": typ, "gomaxprocs": procs, "ctx": "C17", "hot": hot})
 		type rec struct {
 			inv, ret int64
 			ev       map[string]interface{}
@@ -458,6 +468,21 @@ func idxConc(args []string) error {
 					x9 := rng.Intn(10)
 					var f func()
 					switch {
+					case hot && g == 1:
+						rd2 := int(atomic.AddInt64(&nextRid, 1))
+						old := hotRid
+						hotRid = rd2
+						ev["k"], ev["a"], ev["r"], ev["a2"], ev["r2"] = "upd", hotKey, old, hotKey, rd2
+						f = func() { x.idx.UpdateEntry(x.keyTuple(hotKey), ridOf(old), x.keyTuple(hotKey), ridOf(rd2), nil) }
+					case hot && g >= 2:
+						ev["k"], ev["a"] = "point", hotKey
+						f = func() {
+							out := []int{}
+							for _, rd := range x.idx.ScanKey(x.keyTuple(hotKey), nil) {
+								out = append(out, ridID(rd))
+							}
+							ev["rids"] = out
+						}
 					case g == 0 && x9 < 5: // the scanner
 						lo, hi := -2, -2
 						if rng.Intn(2) == 0 {
@@ -497,8 +522,23 @@ func idxConc(args []string) error {
 						mine = append(mine[:j], mine[j+1:]...)
 						ev["k"], ev["a"], ev["r"] = "del", m[0], m[1]
 						f = func() { x.idx.DeleteEntry(x.keyTuple(m[0]), ridOf(m[1]), nil) }
+					case x9 < 9 && len(mine) > 0 && kind != "hash":
+						// UpdateEntry: what UPDATE does for a relocated row (same key, new row id) or a changed key
+						j := rng.Intn(len(mine))
+						m := mine[j]
+						k2 := m[0]
+						if rng.Intn(2) == 0 {
+							k2 = rng.Intn(nk)
+						}
+						rd2 := int(atomic.AddInt64(&nextRid, 1))
+						mine[j] = [2]int{k2, rd2}
+						ev["k"], ev["a"], ev["r"], ev["a2"], ev["r2"] = "upd", m[0], m[1], k2, rd2
+						f = func() { x.idx.UpdateEntry(x.keyTuple(m[0]), ridOf(m[1]), x.keyTuple(k2), ridOf(rd2), nil) }
 					default:
 						k := rng.Intn(nk)
+						if len(mine) > 0 && rng.Intn(2) == 0 {
+							k = mine[rng.Intn(len(mine))][0] // a key this goroutine's own entries live under: others move theirs there too
+						}
 						ev["k"], ev["a"] = "point", k
 						f = func() {
 							out := []int{}
@@ -510,22 +550,33 @@ func idxConc(args []string) error {
 					}
 					r.ev = ev
 					r.inv = atomic.AddInt64(&clock, 1)
-					done := make(chan string, 1)
-					go func() {
-						defer func() {
-							if p := recover(); p != nil {
-								done <- "panic:" + fmt.Sprint(p)
-							}
+					if hot && g >= 1 {
+						func() {
+							defer func() {
+								if p := recover(); p != nil {
+									ev["res"] = "panic:" + fmt.Sprint(p)
+								}
+							}()
+							f()
 						}()
-						f()
-						done <- "ok"
-					}()
-					select {
-					case res := <-done:
-						ev["res"] = res
-					case <-time.After(40 * time.Second):
-						ev["res"] = "hang"
-						atomic.StoreInt32(&hung, 1)
+					} else {
+						done := make(chan string, 1)
+						go func() {
+							defer func() {
+								if p := recover(); p != nil {
+									done <- "panic:" + fmt.Sprint(p)
+								}
+							}()
+							f()
+							done <- "ok"
+						}()
+						select {
+						case res := <-done:
+							ev["res"] = res
+						case <-time.After(40 * time.Second):
+							ev["res"] = "hang"
+							atomic.StoreInt32(&hung, 1)
+						}
 					}
 					r.ret = atomic.AddInt64(&clock, 1)
 					recs[g] = append(recs[g], r)
